@@ -45,6 +45,8 @@ static sqfs_object_t *frag_table_copy(const sqfs_object_t *obj)
 		return NULL;
 	}
 
+	/* the copy is an object of its own: it needs its own callbacks */
+	sqfs_object_init(copy, frag_table_destroy, frag_table_copy);
 	return (sqfs_object_t *)copy;
 }
 
